@@ -37,6 +37,8 @@ def fl(x):
 
 
 def qval(q, rec):
+    if q.get("kind") == "unweighted":
+        return 1.0
     f = q["f"]
     if f == "xy":
         return (rec["x"], rec["y"])
